@@ -35,6 +35,21 @@ def run(chk, tier):
     chk.add("fault_programs", nf)
     with phase(chk, "oracle+goja"):
         states, bad, explained = oracle.compare(chk, binp, progs, wd, "l2", DEVS, "MiniJS L2 (generators)")
+    # the same programs with every yield moved into a deeper expression position (array / object literal, call argument, template,
+    # conditional, comma, arrow call): the specified behaviour is unchanged
+    with phase(chk, "goja-yield-forms"):
+        got2 = oracle.goja_run(binp, progs, wd, "yf", variant="yform")
+        want2 = oracle.LAST_WANT
+        nbad = 0
+        for p in progs:
+            if not oracle.agree(p, want2[p["id"]], got2[p["id"]]):
+                nbad += 1
+                g = got2[p["id"]]
+                chk.violation("MiniJS L2 (generators, yield inside expressions): program %d: specified log=%s %s/%s; goja log=%s %s/%s %s" % (
+                    p["id"], want2[p["id"]]["log"], want2[p["id"]]["ty"], want2[p["id"]]["v"], g["log"], g.get("ty"), g.get("v"),
+                    (g.get("err") or g.get("panic") or "")[:200]),
+                    {"module": "MiniJS", "variant": "yform", "program": p, "source": mjgen.print_js(p, variant="yform"), "want": want2[p["id"]], "got": g})
+        chk.add("yield_form_runs", len(progs))
     chk.setcov("programs", len(progs))
     chk.setcov("disagreements_checked", bad)
     chk.setcov("states", states)
